@@ -158,16 +158,16 @@ theorem removeChildE_eraseSN (pf : Flags) (pk : CompKind) (name : Key) {cs : Lis
   simp only [removeChildE, removeChild_eraseSN pf pk name h]
   cases removeChild pf pk name cs <;> rfl
 
-theorem mergeStep_eraseSN {rec : Node → Node → Except Err (Node × Bool)} (hE : RecErase rec) (hC : RecCons rec)
+theorem mergeStep_eraseSN {exc : List Path} {rec : Node → Node → Except Err (Node × Bool)} (hE : RecErase rec) (hC : RecCons rec)
     (hN : RecNN rec) (sf : Flags) (sk : CompKind) {acc : List (Key × Node)} (key : Key) {v : Node}
     (hacc : allConsistent acc = true) (hnacc : nnList acc = true) (hv : FlagsConsistent v = true)
     (hnv : NN v = true) :
-    mergeStep rec (eraseF sf) sk (eraseSNList acc) (key, eraseSN v) =
-      (mergeStep rec sf sk acc (key, v)).map eraseSNList := by
+    mergeStep rec (eraseF sf) sk exc (eraseSNList acc) (key, eraseSN v) =
+      (mergeStep rec sf sk exc acc (key, v)).map eraseSNList := by
   simp only [mergeStep, getChild_eraseSN]
   cases hg : getChild sk key acc with
   | none =>
-    simp only [Option.map_none, reqNew_eraseSN, reqNew_NN [] [] hnv]
+    simp only [Option.map_none, reqNew_eraseSN, reqNew_NN _ [] hnv]
     exact setChild_eraseSN sf sk key acc hv
   | some child =>
     have hchild := getChild_cons hacc hg
@@ -185,23 +185,23 @@ theorem mergeStep_eraseSN {rec : Node → Node → Except Err (Node × Bool)} (h
       repeat' split
       all_goals rfl
 
-theorem mergeStep_allCons {rec : Node → Node → Except Err (Node × Bool)} (hC : RecCons rec) {sf : Flags}
+theorem mergeStep_allCons {exc : List Path} {rec : Node → Node → Except Err (Node × Bool)} (hC : RecCons rec) {sf : Flags}
     {sk : CompKind} {acc acc' : List (Key × Node)} {kv : Key × Node} (hacc : allConsistent acc = true)
-    (hkv : FlagsConsistent kv.2 = true) (h : mergeStep rec sf sk acc kv = .ok acc') :
+    (hkv : FlagsConsistent kv.2 = true) (h : mergeStep rec sf sk exc acc kv = .ok acc') :
     allConsistent acc' = true :=
   mergeStep_cons hC hacc hkv h
 
-theorem mergeLoop_eraseSN {rec : Node → Node → Except Err (Node × Bool)} (hE : RecErase rec) (hC : RecCons rec)
+theorem mergeLoop_eraseSN {exc : List Path} {rec : Node → Node → Except Err (Node × Bool)} (hE : RecErase rec) (hC : RecCons rec)
     (hN : RecNN rec) (sf : Flags) (hsf : nnF sf = true) (sk : CompKind) : ∀ (acc ocs : List (Key × Node)),
     allConsistent acc = true → nnList acc = true → allConsistent ocs = true → nnList ocs = true →
-    mergeLoop rec (eraseF sf) sk (eraseSNList acc) (eraseSNList ocs) =
-      (mergeLoop rec sf sk acc ocs).map eraseSNList
+    mergeLoop rec (eraseF sf) sk exc (eraseSNList acc) (eraseSNList ocs) =
+      (mergeLoop rec sf sk exc acc ocs).map eraseSNList
   | acc, [], _, _, _, _ => rfl
   | acc, (k, v) :: rest, hacc, hnacc, ho, hno => by
     rw [allConsistent_cons] at ho
     rw [nnList_cons] at hno
     simp only [eraseSNList, mergeLoop, mergeStep_eraseSN hE hC hN sf sk k hacc hnacc ho.1 hno.1]
-    cases hs : mergeStep rec sf sk acc (k, v) with
+    cases hs : mergeStep rec sf sk exc acc (k, v) with
     | error e => rfl
     | ok acc1 =>
       simp only [Except.map]
@@ -233,8 +233,9 @@ theorem compMerge_eraseSN {rec : Node → Node → Except Err (Node × Bool)} (h
     have hed := eDel_eraseSN (.comp of ok ocs)
     have hrq := fun exc => reqNew_eraseSN exc [] (.comp of ok ocs)
     simp only [eraseSN] at hfil hed hrq
-    have hloop1 := mergeLoop_eraseSN hE hC hN sf hsf sk _ ocs hfB (NN_children hfN) hocs hno'.2
-    have hloop2 := mergeLoop_eraseSN hE hC hN sf hsf sk scs ocs hscs hnscs hocs hno'.2
+    have hloop1 := mergeLoop_eraseSN
+      (exc := (filterNode (maybeKeep (.comp of ok ocs)) [] (.comp sf sk scs)).2) hE hC hN sf hsf sk _ ocs hfB (NN_children hfN) hocs hno'.2
+    have hloop2 := mergeLoop_eraseSN (exc := []) hE hC hN sf hsf sk scs ocs hscs hnscs hocs hno'.2
     have hfin := fun scs' h => finishMerge_eraseSN sf sk (scs := scs') (.comp of ok ocs) h
     simp only [eraseSN] at hfin
     simp only [eraseSN, compMerge, hed, hfil, children_eraseSN, isEmpty_eraseSNList, hasPrio_eraseF, hrq,
@@ -248,12 +249,13 @@ theorem compMerge_eraseSN {rec : Node → Node → Except Err (Node × Bool)} (h
         | ok rs =>
           obtain ⟨r, same⟩ := rs
           simp only [eraseRes, propagate_eraseSN (maybePromote_below hocs hp)]
-      · cases hl : mergeLoop rec sf sk (filterNode (maybeKeep (.comp of ok ocs)) [] (.comp sf sk scs)).1.children ocs with
+      · cases hl : mergeLoop rec sf sk (filterNode (maybeKeep (.comp of ok ocs)) [] (.comp sf sk scs)).2
+          (filterNode (maybeKeep (.comp of ok ocs)) [] (.comp sf sk scs)).1.children ocs with
         | error e => rfl
         | ok scs' =>
           simp only [Except.map]
           exact hfin scs' (mergeLoop_cons hC sf sk _ ocs scs' hfB hocs hl)
-    · cases hl : mergeLoop rec sf sk scs ocs with
+    · cases hl : mergeLoop rec sf sk [] scs ocs with
       | error e => rfl
       | ok scs' =>
         simp only [Except.map]
